@@ -5,8 +5,9 @@ Require Import Base Return Chain ChainProofs.
    themselves and call Next at most once (hypothesis H1, see C15_contained_refuted); anything at all
    after it: panics of any value at any phase and depth, unresolvable handlers, an action.  Then the
    request ends normally: no panic escapes ServeHTTP. *)
-Theorem C15_contained : forall hs action head dev r,
-  recov_cfg hs action r -> exists s, serve hs action head dev = Done s.
+Theorem C15_contained : forall hs action head dev apprh,
+  valid_cfg hs action = true -> forall r,
+  recov_cfg hs action r -> exists s, serve hs action head dev apprh = Done s.
 Proof. exact serve_contained. Qed.
 
 (* Without H1 the statement is false of the faithful model (and of the code: known finding F16):
@@ -14,7 +15,7 @@ Proof. exact serve_contained. Qed.
    Recovery's frame. *)
 Theorem C15_contained_refuted : exists hs action head dev r,
   hs <> [] /\ handler_at hs action r = Some HRecovery /\
-  exists v s, serve hs action head dev = Panicked v s.
+  exists v s, serve hs action head dev None = Panicked v s.
 Proof.
   exists [HNormal [ANext; ANext] []; HRecovery; HNormal [AWriteHeader 200] []; HNormal [APanic 1] []], None, false, true, 1.
   split; [discriminate|]. split; [reflexivity|]. eexists. eexists. vm_compute. reflexivity.
@@ -26,17 +27,17 @@ Theorem C15_response : forall head dev v s,
   let s' := w_body head (CPanicPage v dev) (w_header 500 s) in
   status s' = (if Z.eqb (status s) 0 then 500%Z else status s) /\
   (head = false -> body s' = body s ++ [CPanicPage v dev]) /\
-  trace s' = trace s /\ idx s' = idx s.
+  idx s' = idx s.
 Proof. exact recovery_response. Qed.
 
 (* and the trace of such a request is still accepted by the chain judge: every started handler
    finished (Exit or Unwind), in particular the code after Next() of outer middleware ran *)
-Theorem C15_trace_accepted : forall hs action head dev r,
-  recov_cfg hs action r ->
-  exists s, serve hs action head dev = Done s /\ chain_spec_ok hs action (trace s) = true.
+Theorem C15_trace_accepted : forall hs action head dev apprh r,
+  valid_cfg hs action = true -> recov_cfg hs action r ->
+  exists s, serve hs action head dev apprh = Done s /\ chain_spec_ok hs action (trace s) = true.
 Proof.
-  intros hs action head dev r Rc. destruct (serve_contained hs action head dev r Rc) as (s & E).
-  exists s. split; [exact E|]. pose proof (serve_accepted hs action head dev) as H. rewrite E in H. exact H.
+  intros hs action head dev apprh r V Rc. destruct (serve_contained hs action head dev apprh V r Rc) as (s & E).
+  exists s. split; [exact E|]. pose proof (serve_accepted hs action head dev apprh V) as H. rewrite E in H. exact H.
 Qed.
 
 (* later requests: the model of a request has no state besides the configuration, so serving is a
@@ -44,9 +45,9 @@ Qed.
 
 Example C15_example :
   recov_cfg [HNormal [ANext; AWrite [120]%N] []; HRecovery; HNormal [AWrite [97]%N; APanic 3] []] None 1 /\
-  serve [HNormal [ANext; AWrite [120]%N] []; HRecovery; HNormal [AWrite [97]%N; APanic 3] []] None false false
+  serve [HNormal [ANext; AWrite [120]%N] []; HRecovery; HNormal [AWrite [97]%N; APanic 3] []] None false false None
   = Done (mkst 3 200 [CBytes [97]%N; CPanicPage 3 false; CBytes [120]%N] false
-            [Enter 0 0 false; NextCall 0; Enter 2 0 false; Unwind 2; NextRet 0; Exit 0]).
+            [Enter 0 0 false; NextCall 0; Enter 2 0 false; Sent; Unwind 2; NextRet 0; Exit 0] None).
 Proof.
   split.
   - split; [reflexivity|]. intros p Hp. assert (p = 0) by lia. subst p. eexists. eexists. repeat split. cbn. lia.
